@@ -135,6 +135,7 @@ EQ = os.path.join(HERE, "equiv")
 
 # behaviour-preserving refactors: every listed check must stay SILENT (exit 0) on them — a check that fires here is a false alarm
 EQUIV = [
+    ("eq-authorization-loops", ["C05", "C06", "C04"], [os.path.join(EQ, "authorization_loops.diff")], []),
     ("eq-lookback-arithmetic", ["C02", "C06"], [os.path.join(EQ, "lookback_arith.diff")], []),
     ("eq-keypackage-manual-exact-decode", ["C15", "C06", "C14", "C04"], [os.path.join(EQ, "keypackage_refactor.diff")], []),
     ("eq-dedup-helper", ["C01", "C02", "C06", "C07", "C14"], [os.path.join(EQ, "dedup_helper.diff")], []),
